@@ -193,3 +193,84 @@ fn strip_structural(m: &MDoc) -> MDoc {
     x.objects.retain(|_, o| !pdfmodel::is_xref_stream_obj(o) && !pdfmodel::is_objstm_obj(o));
     x
 }
+
+
+/// (c) a foreign producer appends revisions to a file lopdf wrote: every prefix must load to
+/// "newest definition wins", and lopdf must be able to extend the result once more.
+pub fn c07_foreign_on_lopdf(ctx: &Ctx, out: &mut RunOut) -> Result<(), Violation> {
+    use pdfmodel::refwriter::{self, Revision, Seed, XrefStyle};
+    let (m, _) = gen::gen_doc(ctx);
+    let mut d = sim::to_doc(&m);
+    let mut sink = SimSink::new(ctx, draw_benign_sink(ctx));
+    guarded("save_to", || d.save_to(&mut sink))?.map_err(|e| Violation::new("healthy-save-failed", format!("base save: {e}")))?;
+    let base = sink.accepted;
+    // where the base's cross-reference section is, read independently
+    let sd = read_strict(&base, &StrictOpts { trusted_prefix: 0, allow_leading_junk: false, binary_comment_optional: false })
+        .map_err(|e| Violation::new("strict:rejects", format!("strict reader rejects the lopdf-written base: {e}")))?;
+    let seed = Seed { bytes: base.clone(), prev_xref: sd.section_offsets[0] as u64, max_num: sd.doc.max_id, objects: m.objects.clone() };
+    // update revisions
+    let mut g = gen::Gen::new(ctx, gen::draw_cfg(ctx));
+    g.cfg.max_depth = g.cfg.max_depth.min(3);
+    g.cfg.nonzero_gen = false;
+    g.ids = m.objects.keys().cloned().collect();
+    if g.ids.is_empty() {
+        g.ids.push((1, 0));
+    }
+    let ids: Vec<(u32, u16)> = m.objects.keys().cloned().collect();
+    let mut next_new = sd.doc.max_id + 1;
+    let n_updates = 1 + ctx.draw(W, 2, "foreign-updates") as usize;
+    let mut revisions = Vec::new();
+    for _ in 0..n_updates {
+        let mut objs = std::collections::BTreeMap::new();
+        for _ in 0..1 + ctx.draw(W, 4, "rev-edits") {
+            let o = g.gen_obj(0, ctx.chance(W, 1, 3, "rev-stream"));
+            if ctx.chance(W, 2, 3, "rev-replace") && !ids.is_empty() {
+                objs.insert(ids[ctx.draw(W, ids.len() as u64, "rev-id") as usize], o);
+            } else {
+                objs.insert((next_new, 0), o);
+                next_new += 1 + ctx.draw(W, 2, "rev-gap") as u32;
+            }
+        }
+        revisions.push(Revision { objects: objs, trailer: pdfmodel::trailer_payload(&m.trailer) });
+    }
+    let mut opts = refwriter::draw_opts(ctx, n_updates, &m.version, &m.binary_mark);
+    opts.styles = vec![if m.xref_stream { XrefStyle::Stream } else { XrefStyle::Table }; n_updates];
+    opts.leading_junk = false;
+    opts.raw_cr_eol = false;
+    let w = refwriter::write_history_on(ctx, Some(&seed), &revisions, &opts);
+    if !w.bytes.starts_with(&base) {
+        panic!("reference writer changed the seed bytes");
+    }
+    for i in 0..n_updates {
+        let bytes = &w.bytes[..w.layout.revision_ends[i]];
+        dump_image(&format!("c07-foreign-on-lopdf{i}.pdf"), bytes);
+        // keep the producer honest
+        let st = read_strict(bytes, &StrictOpts { trusted_prefix: base.len(), allow_leading_junk: false, binary_comment_optional: false })
+            .unwrap_or_else(|e| panic!("reference writer appended a revision the strict reader rejects: {e}"));
+        let mut exp = w.expect[i].clone();
+        exp.trailer = pdfmodel::trailer_payload(&exp.trailer);
+        let mut got = st.doc.clone();
+        got.trailer = pdfmodel::trailer_payload(&got.trailer);
+        if let Err((c, e)) = pdfmodel::same_doc(&exp, &got, &|_, _| false) {
+            panic!("strict reader and reference writer disagree on the appended revision {i} ({c}): {e}");
+        }
+        ctx.event("c07-foreign-on-lopdf", i as u64, simcore::fnv(bytes));
+        draw_sched(ctx);
+        let mut src = SimSource::new(ctx, bytes, draw_benign_source(ctx));
+        let dl = guarded("load_from", || sim::load_from(&mut src))?
+            .map_err(|e| Violation::new("load-failed", format!("lopdf-written base + {} foreign revision(s) failed to load: {e}", i + 1)))?;
+        let expect = expect_for_lopdf(&w.expect[i]);
+        let structural = &w.structural_ids[i];
+        let extra = |id: (u32, u16), o: &MObj| pdfmodel::is_xref_stream_obj(o) || (structural.contains(&id.0) && pdfmodel::is_objstm_obj(o));
+        pdfmodel::same_doc(&expect, &sim::from_doc(&dl), &extra)
+            .map_err(|(c, e)| Violation::new(c, format!("lopdf-written base + foreign revision {i} ({:?}, freedom {}): {e}", opts.styles[0], opts.freedom)))?;
+        let ds = guarded("load_mem(seq)", || seq::load_mem(bytes))?.map_err(|e| Violation::new("load-failed", format!("sequential build: {e}")))?;
+        pdfmodel::same_doc(&expect, &seq::from_doc(&ds), &extra).map_err(|(c, e)| Violation::new(c, format!("sequential reader, foreign revision {i} on a lopdf base: {e}")))?;
+    }
+    ctx.set_sched(SchedPolicy::Random);
+    ctx.count("foreign-revision-on-lopdf-base");
+    out.case_hash = simcore::fnv(&w.bytes);
+    out.nontrivial = true;
+    out.sample = format!("lopdf base {} bytes ({}), {} foreign update(s), final {} bytes", base.len(), if m.xref_stream { "xref stream" } else { "xref table" }, n_updates, w.bytes.len());
+    Ok(())
+}
